@@ -56,3 +56,21 @@ fn c01_new_order_1() {
 fn c01_new_order_3() {
     new_order_n::<3>();
 }
+
+// a name and its own wildcard next to each other are two identifiers: both must be ordered
+#[kani::proof]
+#[kani::stub(std::hash::RandomState::new, rs_stub)]
+#[kani::unwind(2)]
+fn c01_new_order_name_and_wildcard() {
+    let wild_first: bool = kani::any();
+    let a = identifier::Identifier { id_type: IdentifierType::Dns, value: String::from("a"), challenge: crate::acme_proto::Challenge::Http01, env: HashMap::new() };
+    let w = identifier::Identifier { id_type: IdentifierType::Dns, value: String::from("*.a"), challenge: crate::acme_proto::Challenge::Dns01, env: HashMap::new() };
+    let ids = if wild_first { vec![w, a] } else { vec![a, w] };
+    let o = NewOrder::new(&ids);
+    assert!(o.identifiers.len() == 2, "C01: newOrder dropped an identifier (a name and its wildcard are distinct identifiers)");
+    let l0 = o.identifiers[0].value.len();
+    let l1 = o.identifiers[1].value.len();
+    assert!(if wild_first { l0 == 3 && l1 == 1 } else { l0 == 1 && l1 == 3 }, "C01: identifier order or wildcard prefix changed in newOrder");
+    core::mem::forget(o);
+    core::mem::forget(ids);
+}
